@@ -37,6 +37,7 @@ func genC20(t *rapid.T) C20Case {
 	cfg.Valid = true
 	cfg.Descriptions = true
 	cfg.SingleLetters = rapid.IntRange(0, 1).Draw(t, "sl")
+	cfg.NumberedNames = true
 	spec := GenProg(t, cfg)
 	ac := DefaultArgvCfg()
 	ac.Unknown = 5
@@ -244,7 +245,7 @@ func checkC20(c C20Case, st *evid.Stats) error {
 }
 
 var propC20 = &Prop[C20Case]{ID: "C20", Sub: "repeat",
-	Rule:  "rapid: definitions with >=2 options per level, required options, aliases, commands, suggested values, descriptions x argv rich in unknown options and ambiguous prefixes x a COMP_LINE; each case executed 12 times in-process on fresh definitions (Parse+Dispatch outcome incl. error text and warnings, Help() of every level, bash and zsh completion lists) and compared byte for byte; non-trivial = >=2 missing required options at the selected level, or >=2 unknown options, or an ambiguous prefix, or >=2 completion candidates; distinct by (competing tables, plan classes, COMP_LINE)",
+	Rule:  "rapid: definitions with >=2 options per level (a quarter of them named from numbered families such as level9 / level10 / level1x), required options, aliases, commands, suggested values, descriptions x argv rich in unknown options and ambiguous prefixes x a COMP_LINE; each case executed 12 times in-process on fresh definitions (Parse+Dispatch outcome incl. error text and warnings, Help() of every level, bash and zsh completion lists) and compared byte for byte; non-trivial = >=2 missing required options at the selected level, or >=2 unknown options, or an ambiguous prefix, or >=2 completion candidates; distinct by (competing tables, plan classes, COMP_LINE)",
 	Gen:   genC20,
 	Check: checkC20,
 }
